@@ -15,7 +15,7 @@ func sat(s int64, extraMsat uint64) uint64 { return uint64(s)*1000 + extraMsat }
 
 func spaces(thorough bool) []chanmc.Space {
 	var out []chanmc.Space
-	types := []string{"tweakless", "zerofee", "taprootfinal"}
+	types := []string{"legacy", "anchors", "taprootfinal"}
 	if thorough {
 		types = chanmc.AllTypes
 	}
@@ -55,6 +55,16 @@ func spaces(thorough bool) []chanmc.Space {
 		for ti, typ := range types {
 			out = append(out, chanmc.Space{Dev: -1, P: chanmc.Params{Type: typ, OpenerB: ti%2 == 1, MaxCuts: 1, Fees: []int64{6900}, Script: []chanmc.Intent{
 				{By: 0, Amt: sat(31000, 0), Fate: "settle"}, {By: 0, Amt: sat(32000, 0), Fate: "fail"}, {By: 1, Amt: sat(33000, 1), Fate: "settle"},
+			}}})
+		}
+	}
+	// Every channel type, cheaply: the eager schedule of a 1+1-HTLC + fee-update
+	// script with one cut at every point (deviation bound 2, the cut being one of the deviations).
+	for _, typ := range chanmc.AllTypes {
+		th := chanmc.Thresholds(typ, 6000, 200, 1300)
+		for _, openerB := range []bool{false, true} {
+			out = append(out, chanmc.Space{Dev: 2, P: chanmc.Params{Type: typ, OpenerB: openerB, MaxCuts: 1, CrashPoints: true, Fees: []int64{6300}, Script: []chanmc.Intent{
+				{By: 0, Amt: sat(th[1], 0), Fate: "settle"}, {By: 1, Amt: sat(th[3]+5000, 1), Fate: "malformed"},
 			}}})
 		}
 	}
